@@ -22,7 +22,7 @@ RULE = (
     "under a harness-owned scheduler (sys.settrace; exactly one thread runs; "
     "every line of reusable.py, presets.py and the search/_search/__call__/"
     "tree/path/setup methods of hyper.py is a yield point). Quick: the "
-    "one-preemption schedules of each case (all, or a stride of <=120) + "
+    "one-preemption schedules of each case (all, or a stride of <=80) + "
     "drawn two-preemption ones; thorough: ALL one-preemption schedules and "
     "all two-preemption ones (a stride of <=6000 pairs beyond ~110 yield "
     "points). Oracle: every returned "
@@ -84,7 +84,10 @@ def seq_cases(draw):
         "cutoff": cutoff,
         "calls": draw(
             st.lists(
-                st.tuples(st.integers(0, len(pool) - 1), st.sampled_from(["search", "call", "tree", "path"])),
+                st.tuples(
+                    st.integers(0, len(pool) - 1), st.sampled_from(["search", "call", "tree", "path"]),
+                    st.sampled_from([0, 0, 1, 2, 3]),
+                ),
                 min_size=2, max_size=6,
             )
         ),
@@ -94,14 +97,20 @@ def seq_cases(draw):
 @st.composite
 def sched_cases(draw):
     nth = draw(st.sampled_from([2, 2, 3]))
-    pool = draw(pools(nth))
+    pool = draw(pools(draw(st.integers(2, 3))))
+    one = st.tuples(st.integers(0, len(pool) - 1), st.sampled_from([0, 0, 0, 1, 2]), st.sampled_from(["search", "call"]))
+    # every thread asks one or two queries in a row; pool members are drawn
+    # WITH replacement, so two threads can be inside a search for the same
+    # contraction (or for twins of it) at the same time
+    tq = [draw(st.lists(one, min_size=1, max_size=2)) for _ in range(nth)]
     return {
         "mode": "sched",
         "pool": pool,
         "kind": draw(st.sampled_from(THREAD_KINDS)),
         "cutoff": 0,
-        "entries": [draw(st.sampled_from(["search", "call"])) for _ in range(nth)],
-        "warm": draw(st.booleans()),
+        "tq": [[list(x) for x in l] for l in tq],
+        # queries answered sequentially before the threads start
+        "warmq": [list(x) for x in draw(st.lists(one, min_size=0, max_size=2))],
         "deep": draw(st.lists(st.tuples(st.integers(1, 400), st.integers(1, 400)), min_size=0, max_size=6)),
     }
 
@@ -157,8 +166,21 @@ def ask(opt, entry, q):
     return "path", ctg.array_contract_path(inputs, output, sizes, optimize=opt, canonicalize=False, cache=False)
 
 
-def query(net):
-    return tuple(tuple(t) for t in net["inputs"]), tuple(net["output"]), dict(net["sizes"])
+def query(net, twin=0):
+    """The contraction of a pool member, or one of its *twins*: the same
+    network with the labels of one tensor (1), of the output (2) or of both (3)
+    rotated - a different contraction (other axis order) that shares every
+    order-insensitive fingerprint with the original."""
+    inputs = [tuple(t) for t in net["inputs"]]
+    output = tuple(net["output"])
+    if twin in (1, 3):
+        cand = [i for i, t in enumerate(inputs) if len(set(t)) >= 2]
+        if cand:
+            i = cand[len(cand) // 2]
+            inputs[i] = inputs[i][1:] + inputs[i][:1]
+    if twin in (2, 3) and len(output) >= 2:
+        output = output[1:] + output[:1]
+    return tuple(inputs), output, dict(net["sizes"])
 
 
 def judge(kind_val, q, what, viol):
@@ -188,10 +210,14 @@ def run_seq(spec):
         return Outcome([f"building {spec['kind']} raised {opt}"], False, ["error"])
     viol = []
     seen = set()
-    for k, (qi, entry) in enumerate(spec["calls"]):
-        q = query(spec["pool"][qi])
+    twins = set()
+    for k, call in enumerate(spec["calls"]):
+        qi, entry = call[0], call[1]
+        tw = call[2] if len(call) > 2 else 0
+        q = query(spec["pool"][qi], tw)
         seen.add(qi)
-        what = f"call#{k} {spec['kind']}.{entry}(query {qi}, N={len(q[0])})"
+        twins.add((qi, q[0], q[1]))
+        what = f"call#{k} {spec['kind']}.{entry}(query {qi}{'abcd'[tw] if tw else ''}, N={len(q[0])})"
         ok, res = guarded(ask, opt, entry, q)
         if not ok:
             viol.append(f"{what} raised {res}")
@@ -206,7 +232,8 @@ def run_seq(spec):
     hyper_branch = hyper_branch or big
     return Outcome(
         viol, len(seen) >= 2 and hyper_branch,
-        ["mode=seq", f"kind={spec['kind']}"] + (["big_networks_default_cutoff"] if big else []),
+        ["mode=seq", f"kind={spec['kind']}"] + (["big_networks_default_cutoff"] if big else [])
+        + (["twins_asked"] if len(twins) > len(seen) else []),
     )
 
 
@@ -267,14 +294,19 @@ class Scheduler:
 def run_threads(spec, preempt):
     """Run one schedule. Returns (violations, steps, switches)."""
     opt = build_optimizer(spec)
-    qs = [query(net) for net in spec["pool"]]
-    n = len(qs)
-    if spec.get("warm"):
-        # a first sequential pass so the threads meet a populated cache
-        for q, e in zip(qs, spec["entries"]):
-            ask(opt, e, q)
+    if "tq" in spec:
+        plans = [[(query(spec["pool"][qi], tw), e, qi, tw) for qi, tw, e in l] for l in spec["tq"]]
+        warm = [(query(spec["pool"][qi], tw), e) for qi, tw, e in spec.get("warmq", [])]
+    else:  # replay files written before threads had query lists
+        plans = [[(query(net), e, i, 0)] for i, (net, e) in enumerate(zip(spec["pool"], spec["entries"]))]
+        warm = [(p[0][0], p[0][1]) for p in plans] if spec.get("warm") else []
+    n = len(plans)
+    # a first sequential pass so the threads meet a populated cache / a
+    # remembered last query
+    for q, e in warm:
+        ask(opt, e, q)
     sched = Scheduler(n, preempt)
-    results = [None] * n
+    results = [[] for _ in range(n)]
     # all threads must be alive before any of them runs: otherwise a short
     # lived thread can exit before the next is created and the OS recycles
     # its identity, which would make the schedule (not the oracle) flaky
@@ -302,15 +334,19 @@ def run_threads(spec, preempt):
             sched.start(me)
             sys.settrace(make_tracer(me))
             try:
-                results[me] = ("ok", ask(opt, spec["entries"][me], qs[me]))
-            except HarnessError as e:
-                results[me] = ("harness", str(e))
-            except Exception as e:  # noqa
-                import traceback
+                for q, e, qi, tw in plans[me]:
+                    try:
+                        results[me].append(("ok", ask(opt, e, q)))
+                    except HarnessError as ex:
+                        results[me].append(("harness", str(ex)))
+                        break
+                    except Exception as ex:  # noqa
+                        import traceback
 
-                tb = traceback.extract_tb(e.__traceback__)
-                where = next((f"{fr.filename.split('/')[-1]}:{fr.lineno}" for fr in reversed(tb) if "cotengra" in fr.filename), "")
-                results[me] = ("raised", f"{type(e).__name__}: {str(e)[:120]} @ {where}")
+                        tb = traceback.extract_tb(ex.__traceback__)
+                        where = next((f"{fr.filename.split('/')[-1]}:{fr.lineno}" for fr in reversed(tb) if "cotengra" in fr.filename), "")
+                        results[me].append(("raised", f"{type(ex).__name__}: {str(ex)[:120]} @ {where}"))
+                        break
             finally:
                 sys.settrace(None)
         finally:
@@ -324,16 +360,21 @@ def run_threads(spec, preempt):
         if t.is_alive():
             raise HarnessError("a scheduled thread did not finish within 120 s")
     viol = []
-    for i, r in enumerate(results):
-        what = f"thread {i} {spec['kind']}.{spec['entries'][i]}(N={len(qs[i][0])}) under preemptions {sorted(preempt)}"
-        if r is None:
+    for i, rs in enumerate(results):
+        if not rs:
             raise HarnessError("thread produced no result")
-        if r[0] == "harness":
-            raise HarnessError(r[1])
-        if r[0] == "raised":
-            viol.append(f"{what} raised {r[1]}")
-        else:
-            judge(r[1], qs[i], what, viol)
+        for j, r in enumerate(rs):
+            q, e, qi, tw = plans[i][j]
+            what = (
+                f"thread {i} query#{j} {spec['kind']}.{e}(pool {qi}{'abcd'[tw] if tw else ''}, N={len(q[0])}) "
+                f"under preemptions {sorted(preempt)}"
+            )
+            if r[0] == "harness":
+                raise HarnessError(r[1])
+            if r[0] == "raised":
+                viol.append(f"{what} raised {r[1]}")
+            else:
+                judge(r[1], q, what, viol)
     return viol, sched.step, sched.switches
 
 
@@ -348,10 +389,10 @@ def run_sched(spec, state=None, tier="quick"):
         return Outcome(viol, False, ["mode=sched"], {"schedules": nrun, "fail_schedule": []})
     if scheds is None:
         scheds = [[s] for s in range(1, steps + 1)]
-        if tier != "thorough" and steps > 120:
+        if tier != "thorough" and steps > 80:
             # quick tier: a deterministic stride through the one-preemption
             # schedules (offset from the spec) instead of all of them
-            stride = -(-steps // 120)
+            stride = -(-steps // 80)
             off = (spec.get("deep") or [(0, 0)])[0][0] % stride
             scheds = scheds[off::stride]
         if tier == "thorough":
